@@ -15,7 +15,7 @@ class WorkerDied(RuntimeError):
 
 
 class SimPool:
-    def __init__(self, workers=4, seed=0, ship=True, faults=None, stats=None):
+    def __init__(self, workers=4, seed=0, ship=True, faults=None, stats=None, lazy=False):
         self.workers = max(1, int(workers))
         self.rnd = random.Random(seed)
         self.ship = ship
@@ -25,6 +25,7 @@ class SimPool:
         self.closed = False
         self.terminated = False
         self.orders = set()
+        self.lazy = lazy  # map returns a generator (as concurrent.futures executors and some MPI pools do)
 
     # pickling a live pool is what real pools refuse
     def __reduce__(self):
@@ -74,7 +75,11 @@ class SimPool:
         return results, flat
 
     def map(self, func, iterable, chunksize=None):
-        return self._run(func, iterable)[0]
+        res = self._run(func, iterable)[0]
+        if self.lazy:
+            self._bump("pool.lazy_maps")
+            return (r for r in res)
+        return res
 
     def imap(self, func, iterable, chunksize=1):
         return iter(self._run(func, iterable)[0])
